@@ -276,6 +276,18 @@ def _peek_body(ctx):
     return body
 
 
+def _token_mix(ctx, i):
+    import random
+    r = random.Random("%s/mix/%d" % (ctx.hseed, i))
+    toks = [b"\x00\x01", b"\x00\x01", b"\x00\x02", b"\x41", b"\x00" + bytes([r.randrange(1, 6)]), bytes([r.randrange(1, 256)])]
+    out, n = [], 0
+    while n <= CAP + 300 + 13 * i:
+        t = r.choice(toks)
+        out.append(t)
+        n += t[1] if t[0] == 0 else 1
+    return b"".join(out)
+
+
 def _bomb(ctx, n):
     """zip bombs: the decoder must raise before building much more than the cap."""
     for i in range(n):
@@ -283,7 +295,11 @@ def _bomb(ctx, n):
                         ("wrap-tail", b"\x00" * (4000 + 500 * i)),
                         # past the cap through runs, then nothing but literal bytes: the refusal must not depend on being inside a run
                         ("pairs-then-literals", b"\x00\xff" * (49 + i % 5) + b"\x01" * (300 + 997 * i)),
-                        ("literals-only", b"\x41" * (0x3000 + 300 + 61 * i))):
+                        ("literals-only", b"\x41" * (0x3000 + 300 + 61 * i)),
+                        # past the cap through the smallest tokens only: every zero that is written counts, also the one a count of 1 stands for
+                        ("single-zero-tokens", b"\x00\x01" * (0x3000 + 300 + 97 * i)),
+                        ("short-run-tokens", (b"\x00\x02", b"\x00\x01\x41", b"\x41\x00\x01", b"\x00\x03\x00\x01")[i % 4] * (0x3000 + 300 + 97 * i)),
+                        ("token-mix", _token_mix(ctx, i))):
             rl = expand_ref_len(x)
             ctx.case(("bomb", kind, i), nontrivial=True, classes=["dec_overcap", "bomb"])
             tracemalloc.start()
